@@ -6,7 +6,7 @@
 From Coq Require Import List ZArith Bool Arith Permutation Sorted.
 From YV Require Import Common.Corr Model.Queries Model.Streams
   Lemmas.QueriesLaws Lemmas.QueriesOrder Lemmas.QueriesGroup Lemmas.QueriesInsert
-  Lemmas.QueriesDictSet Lemmas.StreamsSteps Lemmas.StreamsPipeline Lemmas.StreamsMore.
+  Lemmas.QueriesDictSet Lemmas.StreamsSteps Lemmas.StreamsPipeline Lemmas.StreamsMore Lemmas.StreamsGeneric Lemmas.StreamsAll Lemmas.StreamsMore2.
 Import ListNotations.
 
 (* orderBy / thenBy with any ascending/descending flags: the output is a
@@ -203,6 +203,41 @@ Theorem C13_stream_is_list_accumulate : forall f x r i, Denotes i (x :: r) ->
   Denotes (AccStart f None i) (accumulate_seed (apply2 f) x r) /\
   (forall j dp dt, EndsD j dp dt -> FailsD (AccStart f None j) EType dp dt).
 Proof. exact (fun f x r i D => conj (denotes_accumulate_noseed f x r i D) (fun j dp dt E => accstart_empty f j dp dt E)). Qed.
+
+(* the whole operator list: the above plus zip (with literal collections), join, slice and distinct; [zok_all] is the
+   list-level condition that every distinct key met on the way is hashable (C13_stream_distinct_total covers the rest) *)
+Theorem C13_stream_is_list_all : forall (ops : list zop) (l : list val) (s : st), zok_all ops l = true ->
+  exists fuel s', drain fuel s (zbuild_all ops (OfList l)) = (s', Ok (zlist_all ops l)).
+Proof. exact (fun ops l s K => denotes_drain _ _ (zpipeline_denotes ops _ _ K (oflist_denotes l)) s). Qed.
+
+Theorem C13_stream_is_list_all_compositional : forall (ops : list zop) i l, zok_all ops l = true -> Denotes i l ->
+  Denotes (zbuild_all ops i) (zlist_all ops l).
+Proof. exact zpipeline_denotes. Qed.
+
+(* distinct without any premise: the list semantics when every key is hashable, otherwise exactly the results that
+   precede the first unhashable key, and then TypeError *)
+Theorem C13_stream_distinct_total : forall f l seen i, Denotes i l ->
+  if forallb (fun x => hashable (dkey f x)) l
+  then Denotes (Distinct f seen i) (distinct_from val_eqb (dkey f) seen l)
+  else DenotesF (Distinct f seen i) (distinct_from val_eqb (dkey f) seen (hashable_prefix f l)) EType.
+Proof. exact denotes_distinct_total. Qed.
+
+(* zip with one collection is positional pairing up to the shorter length; join is the filtered product in outer-major order *)
+Theorem C13_stream_zip_join : forall l2 l p f,
+  zip_list [l2] l = map (fun q => VList false [fst q; snd q]) (zip_l l l2) /\
+  join_list p f l2 l = flat_map (fun x => map (apply2 f x) (filter (fun y => truthy (apply2 p x y)) l2)) l.
+Proof. exact (fun l2 l p f => conj (zip_list_one l2 l) eq_refl). Qed.
+
+(* the eager consumers: splitAt gives the two Python slices, groupBy the grouping of C13_group_by (TypeError on an unhashable key) *)
+Theorem C13_consumers : forall i l, Denotes i l ->
+  (forall n s, exists fuel s', apply_stage fuel s (SSplitAt n) (RIter i) =
+     (s', Ok (RVal (VList true [VList false (fst (split_at_l l n)); VList false (snd (split_at_l l n))])))) /\
+  (forall k v s, exists fuel s', apply_stage fuel s (SGroupBy k v) (RIter i) =
+     (s', if forallb (fun x => hashable (apply k x)) l
+          then Ok (RIter (OfList (map (fun g => pair_val (fst g) (VList true (snd g)))
+                                      (group_by_l val_eqb (apply k) (fun x => match v with Some g => apply g x | None => x end) l))))
+          else Err EType)).
+Proof. exact (fun i l D => conj (fun n s => consumer_split_at i l n D s) (fun k v s => consumer_group_by i l k v D s)). Qed.
 
 (* non-vacuity: the model at work on concrete inputs *)
 Example C13_example_order :
